@@ -48,7 +48,7 @@ def configs(tier):
     for c in cfgs:
         if c.get("batch_blocks") == 1 and c.get("split_every") is None and len(c["chunks"]) <= 4:
             extra.append(dict(c, optimize=True))
-    return cfgs + extra
+    return cfgs + extra + graphcfg.wide_cfgs(tier)
 
 
 def shards(tier, seed):
